@@ -265,8 +265,9 @@ func CompactJSON(input, output []byte) []byte {
 			// Skip over whitespace.
 			continue
 		}
-		if c == '-' && input[i] == '0' {
+		if c == '-' && input[i] == '0' && !isNumberContinuation(input, i+1) && !isExponentSign(input, i-1) {
 			// Negative 0 is changed to '0', skip the '-'.
+			// Only the number "-0" itself: "-0.5", "-0e1" or the exponent of "1e-05" must keep their sign.
 			continue
 		}
 		// Add the non-whitespace character to the output.
@@ -301,6 +302,25 @@ func CompactJSON(input, output []byte) []byte {
 		}
 	}
 	return output
+}
+
+// isNumberContinuation reports whether the byte at index continues a JSON number token.
+func isNumberContinuation(input []byte, index int) bool {
+	if index >= len(input) {
+		return false
+	}
+	switch c := input[index]; {
+	case c >= '0' && c <= '9':
+		return true
+	case c == '.' || c == 'e' || c == 'E':
+		return true
+	}
+	return false
+}
+
+// isExponentSign reports whether the sign at index follows an exponent marker.
+func isExponentSign(input []byte, index int) bool {
+	return index >= 1 && (input[index-1] == 'e' || input[index-1] == 'E')
 }
 
 // compactUnicodeEscape unpacks a 4 byte unicode escape starting at index.
